@@ -29,6 +29,12 @@ Proof.
 Qed.
 Print Assumptions C10_spaces_total_nf.
 
+(* running the filter on its own result changes nothing, for every tree (tree-level fixed point; holds since the
+   filter counts a Newline next to an operator as white space -- `fix:` commit in /repo) *)
+Theorem C10_spaces_idem_tree : forall n n', spaces n = Ok n' -> spaces n' = Ok n'.
+Proof. exact spaces_idem. Qed.
+Print Assumptions C10_spaces_idem_tree.
+
 Theorem C06_spaces_leaves : forall n n', spaces n = Ok n' ->
   sp_ins (leaves n) (leaves n') /\ nw_leaves (leaves n') = nw_leaves (leaves n).
 Proof. intros n n' H. split; [apply spaces_leaves | apply spaces_nonws_leaves]; exact H. Qed.
